@@ -196,9 +196,39 @@ void setget()
       "hash(~null()) == hash(full set)");
   verif_reach("setget-end");
 }
+
+// the same object on both sides of an assigning operator (aliasing operands)
+template <unsigned N, typename W>
+void selfops()
+{
+  using E = typename en<N>::type;
+  sset const A{fresh_set("A_lo", "A_hi", N)};
+  bf<N, W> a{build<N, W>(A)};
+  bf<N, W> const original{a};
+  unsigned const op{verif_u8("op")};
+  verif_assume(op < 6);
+  switch (op)
+  {
+  case 0: a |= a; break;
+  case 1: a &= a; break;
+  case 2: a ^= a; break;
+  case 3: a = a | a; break;
+  case 4: a = a & a; break;
+  default: a = a ^ a; break;
+  }
+  unsigned const e{verif_u8("e")};
+  verif_assume(e < N);
+  bool const expected{(op == 2 || op == 5) ? false : A.has(e)};
+  verif_assert(a.get(static_cast<E>(e)) == expected, "s op= s equals the set algebra of s with itself");
+  if (op == 2 || op == 5) verif_assert(a == bf<N, W>::null(), "s ^= s is the empty set");
+  else verif_assert(a == original, "s |= s and s &= s leave s unchanged");
+  same_set_checks<N, W>(a, "self-op result == rebuilt", "self-op result != rebuilt is false", "hash(self-op result) == hash(rebuilt)");
+  verif_reach("selfops-end");
+}
 }
 
 #define INST(N, W, WN) \
+  VERIF_HARNESS(h_self_##N##_##WN) { selfops<N, W>(); } \
   VERIF_HARNESS(h_ops_##N##_##WN) { ops<N, W>(); } \
   VERIF_HARNESS(h_ops2_##N##_##WN) { ops2<N, W>(); } \
   VERIF_HARNESS(h_rel_##N##_##WN) { relations<N, W>(); } \
@@ -208,12 +238,23 @@ void setget()
 //@harness h_rel_{N}_{W} for N in 1,3,8,9,17 for W in u8,u16,u32,u64 tier=quick loop=140
 //@harness h_setget_{N}_{W} for N in 1,3,8,9,17 for W in u8,u16,u32,u64 tier=quick loop=140
 //@harness h_ops2_{N}_{W} for N in 3,9 for W in u8,u32 tier=quick loop=140
-//@harness h_ops_{N}_{W} for N in 33,64 for W in u32,u64 tier=thorough loop=140
+//@harness h_self_{N}_{W} for N in 1,3,8,9,17,33 for W in u8,u16,u32,u64 tier=quick loop=140
+// enumerators beyond bit 31 of a 64-bit word (and beyond the first word of narrower ones) already in the quick tier
+//@harness h_setget_33_{W} for W in u32,u64 tier=quick loop=140
+//@harness h_rel_33_{W} for W in u32,u64 tier=quick loop=140
+//@harness h_ops_33_u64 tier=quick loop=140
+//@harness h_setget_64_u64 tier=quick loop=140
+//@harness h_self_{N}_{W} for N in 64,65 for W in u8,u16,u32,u64 tier=thorough loop=140
+//@harness h_ops_33_u32 tier=thorough loop=140
+//@harness h_ops_64_{W} for W in u32,u64 tier=thorough loop=140
 //@harness h_ops_65_u64 tier=thorough loop=140
 // (h_ops for 33/64/65 enumerators in 8/16-bit words and 65 in 32-bit words, i.e. 3-9 storage words: the equality-with-rebuilt
 //  query gets no z3 answer within 60 s; outside the claim.  set/get and the relations are decided for all of them.)
-//@harness h_rel_{N}_{W} for N in 33,64,65 for W in u8,u16,u32,u64 tier=thorough loop=140
-//@harness h_setget_{N}_{W} for N in 33,64,65 for W in u8,u16,u32,u64 tier=thorough loop=140
+//@harness h_rel_{N}_{W} for N in 64,65 for W in u8,u16,u32,u64 tier=thorough loop=140
+//@harness h_rel_33_{W} for W in u8,u16 tier=thorough loop=140
+//@harness h_setget_{N}_{W} for N in 65 for W in u8,u16,u32,u64 tier=thorough loop=140
+//@harness h_setget_33_{W} for W in u8,u16 tier=thorough loop=140
+//@harness h_setget_64_{W} for W in u8,u16,u32 tier=thorough loop=140
 //@harness h_ops2_{N}_{W} for N in 1,8,17 for W in u8,u16,u32,u64 tier=thorough loop=140
 //@harness h_ops2_33_{W} for W in u32,u64 tier=thorough loop=140
 // (depth-2 expressions over 65 enumerators: z3 gave no answer within 60 s per query; outside the claim)
